@@ -10,6 +10,8 @@ package c10
 import (
 	"encoding/json"
 	"fmt"
+	"runtime"
+	"runtime/debug"
 	"sync"
 
 	"verif/harness/core"
@@ -62,7 +64,7 @@ func Check() *core.Check {
 			if tier == "thorough" {
 				return 600000
 			}
-			return 40000
+			return 20000
 		},
 		MinConclusive: func(tier string) int { return 2000 },
 		NumPinned:     len(pinned),
@@ -97,6 +99,7 @@ type found struct {
 // examine runs all monitors for one program; st may be nil (minimisation). It returns the first violation.
 func examine(c *core.Ctx, p *promref.Program, st *core.Stats, full bool) (*found, bool) {
 	noNative := !full
+	pc := progCache{}
 	scheds := p.Interleavings()
 	nontrivial := false
 	rec := func(o *obs, tt traceTotals) {
@@ -112,7 +115,7 @@ func examine(c *core.Ctx, p *promref.Program, st *core.Stats, full bool) (*found
 	}
 	// one execution under (sched, cfg) with monitors a-d; returns the observation
 	runOne := func(sched []promref.Step, cfg runCfg, t *promref.Trace) (*obs, *found) {
-		o := execute(p, sched, cfg)
+		o := execute(p, sched, cfg, pc)
 		if o.Broken != "" {
 			return o, &found{&violation{o.BrokenMon, o.Broken}, sched, cfg}
 		}
@@ -126,6 +129,7 @@ func examine(c *core.Ctx, p *promref.Program, st *core.Stats, full bool) (*found
 		}
 		if st != nil {
 			st.Inc("entry:" + entryNames[cfg.Entry])
+			st.SetAdd("entry_variants", entryNames[cfg.Entry])
 			for i := range o.Steps {
 				st.Count("tracker_events", int64(len(o.Steps[i].Tracker)))
 				st.Count("handler_log_entries", int64(len(stripProbes(o.Steps[i].Log))))
@@ -133,6 +137,9 @@ func examine(c *core.Ctx, p *promref.Program, st *core.Stats, full bool) (*found
 		}
 		return o, nil
 	}
+	// the baseline execution of every interleaving: RunString for the first and one more, RunProgram (compiled once) for the rest
+	altBase := c.Rng.Intn(len(scheds))
+	baseEntries := make([]int, len(scheds))
 	traces := make([]*promref.Trace, len(scheds))
 	bases := make([]*obs, len(scheds))
 	for i, sched := range scheds {
@@ -151,11 +158,16 @@ func examine(c *core.Ctx, p *promref.Program, st *core.Stats, full bool) (*found
 				st.Inc("interleaved_executions")
 			}
 		}
-		o, f := runOne(sched, runCfg{Entry: EntryRunString, NoNative: noNative}, t)
+		baseEntry := EntryRunProgram
+		if i == 0 || i == altBase {
+			baseEntry = EntryRunString
+		}
+		o, f := runOne(sched, runCfg{Entry: baseEntry, NoNative: noNative}, t)
 		if f != nil {
 			return f, nontrivial
 		}
 		bases[i] = o
+		baseEntries[i] = baseEntry
 	}
 	// (f) entry variants for the first interleaving and one more
 	pick := []int{0}
@@ -163,8 +175,8 @@ func examine(c *core.Ctx, p *promref.Program, st *core.Stats, full bool) (*found
 		pick = append(pick, 1+c.Rng.Intn(len(scheds)-1))
 	}
 	for _, i := range pick {
-		for e := EntryRunProgram; e < NEntries; e++ {
-			if e == EntryTrigger && !full {
+		for e := EntryRunString; e < NEntries; e++ {
+			if e == baseEntries[i] || (e == EntryTrigger && !full) {
 				continue
 			}
 			cfg := runCfg{Entry: e, NoNative: noNative}
@@ -181,19 +193,19 @@ func examine(c *core.Ctx, p *promref.Program, st *core.Stats, full bool) (*found
 				b[k] = o.h.name(b[k])
 			}
 			if !eqLists(a, b) {
-				return &found{&violation{"entry-variant", diffLists("handler log under "+entryNames[e]+" vs RunString", a, b)}, scheds[i], cfg}, nontrivial
+				return &found{&violation{"entry-variant", diffLists("handler log under "+entryNames[e]+" vs "+entryNames[baseEntries[i]], a, b)}, scheds[i], cfg}, nontrivial
 			}
 		}
 	}
 	// (e) an interrupt at every probe position of one interleaving, entry alternating
 	i := c.Rng.Intn(len(scheds))
-	entries := []int{EntryRunString, EntryCallable, EntryRunProgram}
+	entries := []int{EntryRunProgram, EntryCallable, EntryRunProgram, EntryRunString}
 	if full {
 		entries = append(entries, EntryTrigger)
 	}
 	entry := entries[c.Rng.Intn(len(entries))]
 	base := bases[i]
-	if entry != EntryRunString {
+	if entry != baseEntries[i] {
 		var f *found
 		base, f = runOne(scheds[i], runCfg{Entry: entry, NoNative: noNative}, traces[i])
 		if f != nil {
@@ -206,7 +218,7 @@ func examine(c *core.Ctx, p *promref.Program, st *core.Stats, full bool) (*found
 	}
 	for at := 1; at <= nProbes; at++ {
 		cfg := runCfg{Entry: entry, ProbeAt: at, NoNative: noNative}
-		o := execute(p, scheds[i], cfg)
+		o := execute(p, scheds[i], cfg, pc)
 		if o.Broken != "" {
 			return &found{&violation{o.BrokenMon, o.Broken}, scheds[i], cfg}, nontrivial
 		}
@@ -220,6 +232,7 @@ func examine(c *core.Ctx, p *promref.Program, st *core.Stats, full bool) (*found
 		}
 		if st != nil {
 			st.Inc("interrupts_injected")
+			st.SetAdd("interrupt_entry_variants", entryNames[entry])
 			if tt.Dropped > 0 {
 				st.Inc("interrupts_that_dropped_jobs")
 			}
@@ -239,6 +252,7 @@ func countOps(p *promref.Program, st *core.Stats) {
 			name += ":" + promref.StaticNames[op.St]
 		}
 		st.Inc("op:" + name)
+		st.SetAdd("op_kinds", name)
 		if op.Cls != promref.ClsPromise {
 			st.Inc("op_on_subclass:" + promref.ClsNames[op.Cls])
 		}
@@ -253,6 +267,17 @@ func countOps(p *promref.Program, st *core.Stats) {
 			opw(&s[i])
 		}
 	}
+	p.WalkVals(func(v *promref.Val) {
+		switch v.K {
+		case promref.VThen:
+			st.Inc("thenable:" + promref.ThenKindNames[v.T])
+			st.SetAdd("thenable_kinds", promref.ThenKindNames[v.T])
+		case promref.VAsync:
+			st.Inc("inline_async_call")
+		case promref.VProm:
+			st.Inc("value_is_promise")
+		}
+	})
 	p.WalkHandlers(func(h *promref.Handler) {
 		st.Inc(fmt.Sprintf("handler_kind:%d", h.K))
 		if h.Native {
@@ -282,7 +307,12 @@ func result(f *found, p *promref.Program, sig string) core.Result {
 		Detail: fmt.Sprintf("entry=%s probeAt=%d schedule=%v\n%s", entryNames[f.cfg.Entry], f.cfg.ProbeAt, f.sched, f.v.Detail), Signature: sig, Case: cr}
 }
 
+var gcOnce sync.Once
+
 func run(c *core.Ctx) core.Result {
+	// thousands of short-lived runtimes per second: collect less often (the live heap of a worker stays a few MB)
+	// and the workload is single-threaded: with one worker process per core, 16 Ps per process only add GC futex traffic
+	gcOnce.Do(func() { debug.SetGCPercent(1000); runtime.GOMAXPROCS(2) })
 	if c.Index < 0 {
 		return runPinned(c)
 	}
